@@ -20,11 +20,11 @@ FILE_CHECKS = {
     "bandit/core/manager.py": ["C02", "C03", "C04", "C07", "C11", "C12"],
     "bandit/core/utils.py": ["C01", "C02", "C10", "C17", "C14"],
     "bandit/core/context.py": ["C06", "C14", "C15", "C17"],
-    "bandit/core/issue.py": ["C03", "C07", "C09", "C10"],
+    "bandit/core/issue.py": ["C03", "C07", "C09", "C10", "C19"],
     "bandit/core/metrics.py": ["C12"],
     "bandit/core/test_set.py": ["C05", "C13", "C18"],
     "bandit/core/config.py": ["C13", "C03"],
-    "bandit/core/extension_loader.py": ["C18", "C02"],
+    "bandit/core/extension_loader.py": ["C18", "C02", "C05", "C13", "C03"],
     "bandit/core/docs_utils.py": ["C18"],
     "bandit/cli/main.py": ["C03", "C13", "C11"],
     "bandit/cli/baseline.py": ["C20"],
